@@ -203,3 +203,78 @@ func (w *World) sameFieldRead(fn *ssa.Function, a, b ssa.Value) bool {
 	}
 	return true
 }
+
+// uncheckedScanners lists the bufio.Scanner values created on fn's tree whose Err method is never consulted: Scan
+// stops without a word on a token longer than the buffer (64 KiB by default) and on a read error, so input read
+// through such a scanner can be cut short silently.
+func (w *World) uncheckedScanners(fn *ssa.Function) []*ssa.Call {
+	var out []*ssa.Call
+	for _, call := range w.callsToDeep(fn, "bufio.NewScanner") {
+		cv, ok := call.(*ssa.Call)
+		if !ok {
+			continue
+		}
+		checked := false
+		seen := map[ssa.Value]bool{}
+		var follow func(v ssa.Value, d int)
+		follow = func(v ssa.Value, d int) {
+			if d > 6 || seen[v] || v.Referrers() == nil {
+				return
+			}
+			seen[v] = true
+			for _, r := range *v.Referrers() {
+				switch u := r.(type) {
+				case *ssa.Call:
+					if calleeName(u) == "(*bufio.Scanner).Err" {
+						if refs := u.Referrers(); refs != nil && len(*refs) > 0 {
+							checked = true
+						}
+					} else if callee := u.Call.StaticCallee(); callee != nil && w.InRepo(callee) && callee.Blocks != nil {
+						for i, a := range u.Call.Args {
+							if a == v && i < len(callee.Params) {
+								follow(callee.Params[i], d+1)
+							}
+						}
+					}
+				case *ssa.Store:
+					if u.Val == v {
+						if al, ok := u.Addr.(*ssa.Alloc); ok {
+							for _, ld := range *al.Referrers() {
+								if lo, ok := ld.(*ssa.UnOp); ok && lo.Op == token.MUL {
+									follow(lo, d+1)
+								}
+							}
+						}
+					}
+				case *ssa.Phi:
+					follow(u, d+1)
+				case *ssa.MakeClosure:
+					for i, b := range u.Bindings {
+						if b == v {
+							if cf, ok := u.Fn.(*ssa.Function); ok && i < len(cf.FreeVars) {
+								follow(cf.FreeVars[i], d+1)
+							}
+						}
+					}
+				}
+			}
+		}
+		follow(cv, 0)
+		if !checked {
+			out = append(out, cv)
+		}
+	}
+	return out
+}
+
+// scannerRule: nothing on fn's tree reads its input through a scanner that can stop early without an error.
+func scannerRule(c *Ctx, rule string, fn *ssa.Function, what string) {
+	w := c.w
+	bad := w.uncheckedScanners(fn)
+	for _, cv := range bad {
+		c.Bad(rule, shortFn(fn)+"|"+what+" read to the end or refused", w.Pos(cv.Pos()), "the input is read through a bufio.Scanner whose Err is never consulted: a line longer than the scanner's buffer (64 KiB) ends the loop as if the input were finished, and what follows is dropped while the call succeeds")
+	}
+	if len(bad) == 0 {
+		c.Ok(rule, shortFn(fn)+"|"+what+" read to the end or refused", w.FnPos(fn), "no scanner whose early stop goes unnoticed")
+	}
+}
